@@ -134,6 +134,8 @@ type stopReplay struct{ why string }
 
 // Run executes f as one replay attempt; it returns normally also when the replay stops early.
 func (r *Replay) Run(f func()) {
+	// goroutine baseline for Quiesce: taken inside the goroutine that runs the harness
+	r.baseGoroutines = runtime.NumGoroutine()
 	defer func() {
 		if x := recover(); x != nil {
 			if _, ok := x.(stopReplay); ok {
@@ -293,10 +295,11 @@ func MapOrderInsertion(on bool) {}
 // Quiesce (intrinsic): lets every goroutine that can run do so and returns how many are still blocked.
 // Natively: gives the scheduler a moment and reports 0 (goroutine leaks are observed symbolically).
 func Quiesce() int {
-	// natively: goroutines alive beyond those that existed when the replay began
+	// natively: goroutines alive beyond those that existed when the replay began; finished goroutines need
+	// a moment to be gone, leaked ones stay: poll briefly
 	n := 0
 	for i := 0; i < 10; i++ {
-		time.Sleep(10 * time.Millisecond)
+		time.Sleep(2 * time.Millisecond)
 		n = runtime.NumGoroutine() - cur.baseGoroutines
 		if n <= 0 {
 			return 0
